@@ -64,6 +64,19 @@ Scenario(k, W, nr, r) ==
        order |-> Orders[((c \div 16) % 4) + 1]]
 NScen(nw) == Len(Weights(nw))
 
+\* Row orders of a user kernel file: the pressure rows of the table may come in any order (the loader interpolates each
+\* column over its pressure index); results must be those of the ascending file.  RowPerm(order, nr)[i] = which row of
+\* the ascending table is written as the i-th row of the file.
+RowOrders == <<"ascending", "descending", "shuffled">>
+RowPerm(order, nr) == [i \in 1..nr |-> CASE order = "ascending" -> i [] order = "descending" -> nr + 1 - i
+                                          [] order = "shuffled" -> ((i * 5) % nr) + 1]        \* a permutation when 5 does not divide nr
+\* Grid histories: two pressure grids with the same number of points and the same first and last pressure but other
+\* interior pressures (interior rows shifted by one; needs rows at least two apart), fitted one after the other in one
+\* process; every fit is judged like a first fit with the kernel values AT ITS OWN pressures.
+AltRows(rows) == [i \in 1..Len(rows) |-> IF i = 1 \/ i = Len(rows) THEN rows[i] ELSE rows[i] + 1]
+AltOk(rows) == Len(rows) >= 3 /\ \A i \in 1..(Len(rows) - 1) : rows[i + 1] - rows[i] >= 2
+GridHistories == << <<"A", "B", "A">>, <<"B", "A", "B">> >>
+
 \* Histories: the result of a fit is a function of the CONTENT of the kernel file it names and of the isotherm, not of
 \* which kernel files were used before.  Two different user kernels that share their file name (in different
 \* directories) are fitted in every order of length 4; each fit is judged like a first call.
